@@ -92,7 +92,14 @@ def carry_step(sl):
         seen = total
         for s in carried + batch:
             seen = seen + s.total_ops
-        out = tc.calculate(list(batch), bucket_interval_secs=BI)
+        # samples of another task of the same parallel element arrive interleaved with this task's samples (one worker hosting clients of
+        # both tasks, or alternating shipments of two workers): they must not affect what is counted for this task
+        mixed = list(batch)
+        if nb >= 2:
+            other = S(fresh_real("other_t"), fresh_int("other_ops", 0), 1, 0, "other", unit="ops")
+            other.task = TASK_B
+            mixed.insert(1, other)
+        out = tc.calculate(mixed, bucket_interval_secs=BI)
         tuples = out[TASK]
         got = st.total_count
         for s in st.unprocessed:
